@@ -8,12 +8,43 @@ VARIABLES c, done
 vars == <<c, done>>
 
 ChainCases == {[u |-> "chain", i |-> i, j |-> j, m |-> m] : i \in 1..Len(BinOps), j \in 1..Len(BinOps), m \in 1..Len(BinOps)}
+\* chains over literal leaves written over SEVERAL LINES inside parentheses (newlines are insignificant inside brackets):
+\* a line break or a comment before the 2nd or the 3rd operator must not change the grouping
+BreakToks == <<"\n", "// c\n">>
+LitChain(i, j, m) == <<"1", BinOps[i], "2", BinOps[j], "3", BinOps[m], "4">>
+MlToks(i, j, m, pos, b) ==
+    <<"(">> \o (IF pos = 1 THEN <<"1", BinOps[i], "2", BreakToks[b], BinOps[j], "3", BinOps[m], "4">>
+                ELSE <<"1", BinOps[i], "2", BinOps[j], "3", BreakToks[b], BinOps[m], "4">>) \o <<")">>
+MlCases == {[u |-> "mlchain", i |-> i, j |-> j, m |-> m, pos |-> pos, b |-> b]
+              : i \in 1..Len(BinOps), j \in 1..Len(BinOps), m \in 1..Len(BinOps), pos \in 1..2, b \in 1..2}
+
+\* LONG chains: n operands (digits as leaves) joined by one operator, or by two operators alternating: left associativity
+\* and the level table hold for every length, not only for 4 operands
+RECURSIVE LongToks(_, _, _, _)
+LongToks(n, k, o1, o2) == IF k = n THEN <<ToString(k - 1)>>
+                          ELSE <<ToString(k - 1), IF k % 2 = 1 THEN o1 ELSE o2>> \o LongToks(n, k + 1, o1, o2)
+LongCases == {[u |-> "longchain", n |-> n, o1 |-> BinOps[i], o2 |-> BinOps[i]] : n \in 5..10, i \in 1..Len(BinOps)}
+             \cup {[u |-> "longchain", n |-> n, o1 |-> BinOps[i], o2 |-> BinOps[j]] : n \in {8, 9}, i \in 1..Len(BinOps), j \in 1..Len(BinOps)}
+
+\* a unary operator before a PRIME call (`f' x` is a call: it binds tighter than the unary operator)
+PrimeTrees == {Un(u, Call(Name("f"), <<Name("x")>>)) : u \in UnOps}
+              \cup {Bin(BinOps[i], Name("d"), Un(u, Call(Name("f"), <<Name("x")>>))) : i \in {k \in 1..Len(BinOps) : Level(BinOps[k]) # 6}, u \in UnOps}
+PrimeMin(t) == IF t.k = "un" THEN <<t.op, "f", "'", "x">> ELSE <<"d", t.op, t.r.op, "f", "'", "x">>
+
 Cases == {[u |-> "shape", t |-> t] : t \in Shapes2 \cup Shapes3}
          \cup {[u |-> "typed", t |-> t] : t \in Typed2}
-         \cup ChainCases
+         \cup ChainCases \cup MlCases \cup LongCases
+         \cup {[u |-> "prime", t |-> t] : t \in PrimeTrees}
 
-TreeOf(x) == IF x.u = "chain" THEN Parse(ChainToks(x.i, x.j, x.m)) ELSE x.t
-MinOf(x) == IF x.u = "chain" THEN ChainToks(x.i, x.j, x.m) ELSE Min(x.t)
+TreeOf(x) == CASE x.u = "chain" -> Parse(ChainToks(x.i, x.j, x.m))
+               [] x.u = "mlchain" -> Parse(LitChain(x.i, x.j, x.m))
+               [] x.u = "longchain" -> Parse(LongToks(x.n, 1, x.o1, x.o2))
+               [] OTHER -> x.t
+MinOf(x) == CASE x.u = "chain" -> ChainToks(x.i, x.j, x.m)
+              [] x.u = "mlchain" -> MlToks(x.i, x.j, x.m, x.pos, x.b)
+              [] x.u = "longchain" -> LongToks(x.n, 1, x.o1, x.o2)
+              [] x.u = "prime" -> PrimeMin(x.t)
+              [] OTHER -> Min(x.t)
 
 Init == c \in Cases /\ done = FALSE
 
@@ -27,9 +58,15 @@ Emit == /\ ~done
 Next == Emit
 Spec == Init /\ [][Next]_vars
 
+\* (the reference parser knows neither line breaks nor the prime call: those texts are checked against the real parser only)
 RoundTrip == LET t == TreeOf(c) IN
-             /\ Parse(MinOf(c)) = t
+             /\ c.u \notin {"mlchain", "prime"} => Parse(MinOf(c)) = t
              /\ Parse(Full(t)) = t
+
+\* a long chain of ONE operator leans to the left: its right operand is always a leaf
+RECURSIVE LeftLeaning(_)
+LeftLeaning(t) == t.k # "bin" \/ (t.r.k # "bin" /\ LeftLeaning(t.l))
+LongLeft == (c.u = "longchain" /\ c.o1 = c.o2) => LeftLeaning(TreeOf(c))
 
 TypedOk == c.u = "typed" => TypeOf(c.t) \in {"int", "bool"}
 
